@@ -217,13 +217,13 @@ def corpus():
 
 
 def generate(rng, tier):
-    mult = 1 if tier == 'quick' else 4
+    mult = 1 if tier == 'quick' else 3
     U = universe(rng, extra=2 if tier == 'quick' else 4)
     cases = []
     # ---- pairs
-    for _ in range(2500 * mult):
+    for _ in range(6000 * mult):
         cases.append(c_cmp(rng.choice(U), rng.choice(U)))
-    for x, y in near_pairs(rng, U, 3500 * mult):
+    for x, y in near_pairs(rng, U, 9000 * mult):
         cases.append(c_cmp(x, y))
     for o in U:
         cases.append(c_cmp(o, o))
@@ -231,9 +231,9 @@ def generate(rng, tier):
         if o[0] in 'ANR' and o[1] == 4:
             cases.append(c_cmp(o, (o[0], 6) + o[2:]) if o[0] != 'N' else c_cmp(o, ('N', 6, o[2], o[3] + 96)))
     # ---- triples
-    for _ in range(1500 * mult):
+    for _ in range(4000 * mult):
         cases.append(c_cmp3(rng.choice(U), rng.choice(U), rng.choice(U)))
-    np_ = near_pairs(rng, U, 1500 * mult)
+    np_ = near_pairs(rng, U, 5000 * mult)
     for x, y in np_:
         z = rng.choice(np_)[0] if rng.random() < 0.5 else rng.choice(U)
         t = [x, y, z]
@@ -241,7 +241,7 @@ def generate(rng, tier):
         cases.append(c_cmp3(*t))
     # ---- sorted
     AN = [o for o in U if o[0] in 'AN']
-    for _ in range(250 * mult):
+    for _ in range(800 * mult):
         pool = AN if rng.random() < 0.7 else U
         if rng.random() < 0.6:
             ver = rng.choice((4, 6))
@@ -257,7 +257,7 @@ def generate(rng, tier):
         rng.shuffle(l2)
         cases.append(c_sorted(l, l2))
     # ---- round trips
-    rt_objs = rng.sample(U, min(len(U), 60 * mult))
+    rt_objs = rng.sample(U, min(len(U), 120 * mult))
     rt_objs += [o for o in U if o[0] == 'G']
     for k in 'AR':
         ks = [o for o in U if o[0] == k]
